@@ -48,6 +48,21 @@ CLAIMS = {
                      "is supporting validation only. Hook: VerifValueMapShape (build tag verif).",
         "technique": "Lean 4 refinement proof (invariant + induction over histories) + shape-level differential stream + porcupine",
     },
+    "C06": {
+        "text": "Theorems: the 16-byte seed codec round-trips every 128-bit state; resume — capturing the generator after a "
+                "draws and installing the bytes in a fresh context continues with exactly words a+1.. of the original "
+                "sequence (all states, all a, b); regenerated facts re-extracted from /repo on every run and decided in the "
+                "kernel: every Roll* call site passes the context's generator (or a local alias of it; the only fallback to "
+                "the package-level source is inside Roll for never-seeded contexts), no package-level rand function is used, "
+                "function/computed sub-VMs inherit the generator unconditionally, Init seeds from Seed. Tie: rng stream. "
+                "Search on the implementation: replay-twice under unrelated global/foreign activity, resume through "
+                "GetCurSeed, re-seeding a used context — over every dice family, random array methods, nested functions, "
+                "computed values.",
+        "note": TB + "VM-level determinism (same program, same seed => same outcome) is validated by the replay oracle, not yet "
+                     "proved on a VM model. Translator harness/extract is trusted for RngSites; a wrong extraction shows up as "
+                     "a failing replay.",
+        "technique": "Lean 4 theorems + regenerated call-site facts (decide) + replay/resume oracles",
+    },
 }
 
 NOT_YET = {}
